@@ -121,6 +121,7 @@ impl<'a> RtcpPacketWriter for UnknownBuilder<'a> {
     ///
     /// * The count is out of range.
     /// * The padding is not a multiple of 4.
+    /// * The data length is not a multiple of 4.
     fn calculate_size(&self) -> Result<usize, RtcpWriteError> {
         if self.count > Unknown::MAX_COUNT {
             return Err(RtcpWriteError::CountOutOfRange {
@@ -130,6 +131,10 @@ impl<'a> RtcpPacketWriter for UnknownBuilder<'a> {
         }
 
         check_padding(self.padding)?;
+
+        if self.data.len() % 4 != 0 {
+            return Err(RtcpWriteError::DataLen32bitMultiple(self.data.len()));
+        }
 
         Ok(Unknown::MIN_PACKET_LEN + self.data.len() + self.padding as usize)
     }
